@@ -13,6 +13,13 @@ pub fn make_stream(id: &str, total: usize, final_newline: bool) -> Vec<u8> {
             3 => v.extend_from_slice(b" \xe3\x83"),
             _ => {}
         }
+        // DOS line ends and bare carriage returns (progress redraws) are output like any other
+        if seq % 8 == 5 {
+            v.push(b'\r');
+        }
+        if seq % 16 == 9 {
+            v.extend_from_slice(b"\rredrawn");
+        }
         v.push(b'\n');
         seq += 1;
     }
